@@ -245,7 +245,7 @@ func checkC12(w *World, r *Report) {
 		r.Viol("removal.effects", sname+": remove edge", w.InstrPos(decCall), "the decision's result is not branched on")
 	} else {
 		rb := removeIf.If.Block().Succs[removeIf.SuccTrue]
-		pr := w.EnumPaths(save, EnumOpts{Start: rb, StopBlock: func(b *ssa.BasicBlock) bool { return b == removeIf.If.Block() || b.Index < rb.Index && b.Dominates(rb) }})
+		pr := w.EnumPaths(save, EnumOpts{Inline: true, Start: rb, StopBlock: func(b *ssa.BasicBlock) bool { return b == removeIf.If.Block() || b.Index < rb.Index && b.Dominates(rb) }})
 		okDel, okLog := len(pr.Paths) > 0, len(pr.Paths) > 0
 		for _, p := range pr.Paths {
 			del, lg := false, false
